@@ -150,6 +150,13 @@ class Logic:
     def closure_body_formula(self, clo, it, truth=True):
         """formula of `closure(elem(it))` being `truth`"""
         cb = self.F.bodies.get(clo[1]) if clo[0] == "closure" else None
+        if clo[0] == "fnref":
+            if clo[2] and clo[2] in self.F.bodies and self.F.bodies[clo[2]].j.get("output") == "bool":
+                fb = self.F.bodies[clo[2]]
+                env = Env(fb, {1: ("elem", it)}, 2)
+                return self.returns_true(fb, env) if truth else f_not(self.returns_true(fb, env))
+            a = ("atom", canon_index(nosite(("call", clo[1], None, (("elem", it),), None))))
+            return a if truth else ("not", a)
         if cb is None:
             return ("atom", nosite(("apply", clo, ("elem", it)))) if truth else ("not", ("atom", nosite(("apply", clo, ("elem", it)))))
         env = Env(cb, {1: clo, 2: ("elem", it)}, 2)
